@@ -701,7 +701,15 @@ scanSysCommand(void)
 	}
 	epos = scEndTok();
 	s    = scTokText();
-	scAdvance();	/* Eat the \n */
+	if (c == '\n') {
+		scAdvance();	/* Eat the \n */
+	}
+	else {
+		/* The text ended without a newline: go on to the next line. */
+		scIsSysCmd = false;
+		if (scSrcLines) scSrcLines = cdr(scSrcLines);
+		scStartLine();
+	}
 
 	return tokSysCmd(spos, epos, s);
 }
